@@ -32,7 +32,7 @@ OBLIGATIONS = [
     chx("batch_signed_content", "C34_h", "h_batch_signed_content",
         cases={"quick": [{"kinds": [0, k], "_label": lab} for (k, lab) in ((1, "list_body"), (2, "no_service_name"), (3, "nickname_int"),
                                                                              (4, "furl_int"), (5, "furl_str"), (6, "seqnum_str_then_int"))],
-               "thorough": [{"_label": "all"}]},
+               "thorough": [{"kinds": [0, 1, 2, 3], "_label": "mix-a"}, {"kinds": [0, 4, 5, 6], "_label": "mix-b"}, {"kinds": [0, 2, 3, 6], "_label": "mix-c"}]},
         timeout={"quick": 120, "thorough": 1200},
         desc="got_announcements (unstripped) with 3 positions from 3 keys, each a good announcement or a CORRECTLY SIGNED one with malformed content "
              "(body is a list; dict without service-name; nickname 5; anonymous-storage-FURL 7 or 'x'; seqnum 'x' followed by seqnum 2 from the same key), "
